@@ -3,7 +3,7 @@
    time-dependent) functions subject only to the solver contract; M, dt, nodes, Q, preconditioner
    matrices, node values, right-hand sides and tau are all universally quantified. *)
 From Coq Require Import List Arith Bool ZArith QArith Qcanon Ring.
-From PySDC Require Import Model.Sweep Model.Verlet Model.SweepExec Proofs.SweepProofs Proofs.VerletProofs.
+From PySDC Require Import Model.Sweep Model.Verlet Model.SweepExec Proofs.SweepProofs Proofs.VerletProofs Model.SweepDAE Proofs.SweepDAEProofs Model.Boris Model.BorisExec Proofs.BorisProofs.
 Import ListNotations.
 Local Open Scope nat_scope.
 
@@ -163,6 +163,107 @@ Section C02.
     residual_vec kO kadd kmul ksub M dt Q np u f tau m x
     = u 0 x +! dt *! sumf (fun j => Q m j *! ftot kO kadd np (f j) x) 1 M +! tauval tau m x -! u m x.
   Proof. exact (residual_is_defect kO kI kadd kmul ksub kopp Rth M dt Q). Qed.
+
+  (* --- DAE sweepers (pySDC/projects/DAE/sweepers): level.f holds the derivatives U'; F = eval_f(u, u', t) arbitrary *)
+  Theorem C02_dae_fully_implicit_sweep_form : forall (QI : nat -> nat -> K) (F : V -> V -> K -> V)
+      (dsolve : (V -> V) -> V -> K -> V -> K -> V) (u f : nat -> V),
+    dae_solver_contract kO kadd kmul F dsolve ->
+    let r := fi_update kO kadd kmul ksub M dt t0 nodes Q QI F dsolve u f in
+    let un := fst r in let fn := snd r in
+    (forall j, j = 0 \/ M < j -> un j = u j /\ fn j = f j) /\
+    forall m, 1 <= m <= M ->
+      (forall x, un m x = u 0 x +! dt *! sumf (fun j => Q m j *! fn j x) 1 M) /\
+      exists ua : V,
+        (forall x, ua x = u 0 x +! dt *! sumf (fun j => (Q m j -! QI m j) *! f j x) 1 M
+                              +! dt *! sumf (fun j => QI m j *! fn j x) 1 m) /\
+        forall x, F ua (fn m) (tn m) x = kO.
+  Proof. exact (fun QI F dsolve => fi_sweep_form kO kI kadd kmul ksub kopp Rth M dt t0 nodes Q QI F dsolve). Qed.
+
+  Theorem C02_dae_fully_implicit_fixed_point_residual_zero : forall (QI : nat -> nat -> K) (F : V -> V -> K -> V)
+      (dsolve : (V -> V) -> V -> K -> V -> K -> V) (u f : nat -> V),
+    dae_solver_contract kO kadd kmul F dsolve -> evalF_ext F ->
+    (forall m j, m < j -> QI m j = kO) ->
+    let r := fi_update kO kadd kmul ksub M dt t0 nodes Q QI F dsolve u f in
+    (forall j x, 1 <= j <= M -> snd r j x = f j x) ->
+    forall m, 1 <= m <= M -> forall x, dae_residual_vec kadd kmul dt t0 nodes F (fst r) (snd r) m x = kO.
+  Proof. exact (fun QI F dsolve => fi_fixed_point_residual_zero kO kI kadd kmul ksub kopp Rth M dt t0 nodes Q QI F dsolve). Qed.
+
+  Theorem C02_dae_integrate_is_dtQU : forall (f : nat -> V) m x,
+    dae_integrate kO kadd kmul M dt Q f m x = dt *! sumf (fun j => Q m j *! f j x) 1 M.
+  Proof. exact (dae_integrate_is_dtQF kO kI kadd kmul ksub kopp Rth M dt Q). Qed.
+
+  Theorem C02_dae_end_point_form : forall rin dcu (u f : nat -> V) tau,
+    dae_end_point kO kadd kmul M dt weights rin dcu u f tau = if rin && negb dcu then Some (u M) else None.
+  Proof. exact (dae_end_point_form kO kadd kmul M dt weights). Qed.
+
+  Theorem C02_dae_predict_form : forall spread (u f : nat -> V),
+    let r := fi_predict kO M spread u f in
+    fst r 0 = u 0 /\ snd r 0 = vzero kO /\
+    forall m, 1 <= m <= M -> fst r m = (if spread then u 0 else vzero kO) /\ snd r m = vzero kO.
+  Proof. exact (fi_predict_form kO M). Qed.
+
+  Theorem C02_dae_runge_kutta_stage_form : forall (A : nat -> nat -> K) (F : V -> V -> K -> V)
+      (dsolve : (V -> V) -> V -> K -> V -> K -> V) (u f : nat -> V),
+    dae_solver_contract kO kadd kmul F dsolve ->
+    let r := rkdae_update kO kadd kmul M dt t0 nodes Q A F dsolve u f in
+    let un := fst r in let kn := snd r in
+    (forall j, j = 0 \/ M < j -> un j = u j /\ kn j = f j) /\
+    forall m, 1 <= m <= M ->
+      (forall x, un m x = u 0 x +! dt *! sumf (fun j => Q m j *! kn j x) 1 M) /\
+      exists ua : V,
+        (forall x, ua x = u 0 x +! dt *! sumf (fun j => A m j *! kn j x) 1 m) /\
+        forall x, F ua (kn m) (tn m) x = kO.
+  Proof. exact (fun A F dsolve => rkdae_stage_form kO kI kadd kmul ksub kopp Rth M dt t0 nodes Q A F dsolve). Qed.
+
+  (* SemiImplicitDAE: meshes = (differential, algebraic) pairs *)
+  Context {Y : Type}.
+  Notation mesh := ((X -> K) * (Y -> K))%type.
+  Theorem C02_dae_semi_implicit_sweep_form : forall (QI : nat -> nat -> K) (F : mesh -> mesh -> K -> mesh)
+      (dsolve : (mesh -> mesh) -> mesh -> K -> mesh -> K -> mesh) (u f : nat -> mesh),
+    si_solver_contract kO kadd kmul F dsolve ->
+    let r := si_update kO kadd kmul ksub M dt t0 nodes Q QI F dsolve u f in
+    let un := fst r in let fn := snd r in
+    (forall j, j = 0 \/ M < j -> un j = u j /\ fn j = f j) /\
+    forall m, 1 <= m <= M ->
+      snd (fn m) = snd (f m) /\
+      (forall x, fst (un m) x = fst (u 0) x +! dt *! sumf (fun j => Q m j *! fst (fn j) x) 1 M) /\
+      exists ud : X -> K,
+        (forall x, ud x = fst (u 0) x +! dt *! sumf (fun j => Q m j *! fst (f j) x) 1 M
+                              -! dt *! sumf (fun j => QI m j *! fst (f j) x) 1 m
+                              +! dt *! sumf (fun j => QI m j *! fst (fn j) x) 1 m) /\
+        (forall x, fst (F (ud, snd (un m)) (fst (fn m), snd (un m)) (tn m)) x = kO) /\
+        (forall y, snd (F (ud, snd (un m)) (fst (fn m), snd (un m)) (tn m)) y = kO).
+  Proof. exact (fun QI F dsolve => si_sweep_form kO kI kadd kmul ksub kopp Rth M dt t0 nodes Q QI F dsolve). Qed.
+
+  Theorem C02_dae_semi_implicit_sweep_form_lower : forall (QI : nat -> nat -> K) (F : mesh -> mesh -> K -> mesh)
+      (dsolve : (mesh -> mesh) -> mesh -> K -> mesh -> K -> mesh) (u f : nat -> mesh),
+    si_solver_contract kO kadd kmul F dsolve ->
+    (forall m j, m < j -> QI m j = kO) ->
+    let r := si_update kO kadd kmul ksub M dt t0 nodes Q QI F dsolve u f in
+    let un := fst r in let fn := snd r in
+    forall m, 1 <= m <= M ->
+      exists ud : X -> K,
+        (forall x, ud x = fst (u 0) x +! dt *! sumf (fun j => (Q m j -! QI m j) *! fst (f j) x) 1 M
+                              +! dt *! sumf (fun j => QI m j *! fst (fn j) x) 1 m) /\
+        (forall x, fst (F (ud, snd (un m)) (fst (fn m), snd (un m)) (tn m)) x = kO) /\
+        (forall y, snd (F (ud, snd (un m)) (fst (fn m), snd (un m)) (tn m)) y = kO).
+  Proof. exact (fun QI F dsolve => si_sweep_form_lower kO kI kadd kmul ksub kopp Rth M dt t0 nodes Q QI F dsolve). Qed.
+
+  Theorem C02_dae_semi_implicit_fixed_point_residual_zero : forall (QI : nat -> nat -> K) (F : mesh -> mesh -> K -> mesh)
+      (dsolve : (mesh -> mesh) -> mesh -> K -> mesh -> K -> mesh) (u f : nat -> mesh),
+    si_solver_contract kO kadd kmul F dsolve -> si_evalF_semi_explicit F ->
+    (forall m j, m < j -> QI m j = kO) ->
+    let r := si_update kO kadd kmul ksub M dt t0 nodes Q QI F dsolve u f in
+    (forall j x, 1 <= j <= M -> fst (snd r j) x = fst (f j) x) ->
+    forall m, 1 <= m <= M ->
+      (forall x, fst (si_residual_vec kadd kmul dt t0 nodes F (fst r) (snd r) m) x = kO) /\
+      (forall y, snd (si_residual_vec kadd kmul dt t0 nodes F (fst r) (snd r) m) y = kO).
+  Proof. exact (fun QI F dsolve => si_fixed_point_residual_zero kO kI kadd kmul ksub kopp Rth M dt t0 nodes Q QI F dsolve). Qed.
+
+  Theorem C02_dae_semi_implicit_integrate_form : forall (f : nat -> mesh) m,
+    (forall x, fst (si_integrate kO kadd kmul M dt Q f m) x = dt *! sumf (fun j => Q m j *! fst (f j) x) 1 M) /\
+    (forall y, snd (si_integrate kO kadd kmul M dt Q f m) y = kO).
+  Proof. exact (si_integrate_form kO kI kadd kmul ksub kopp Rth M dt Q). Qed.
 End C02.
 
 Print Assumptions C02_generic_implicit_matrix_form.
@@ -178,6 +279,16 @@ Print Assumptions C02_integrate_is_dtQF.
 Print Assumptions C02_end_point_copy.
 Print Assumptions C02_end_point_quadrature.
 Print Assumptions C02_residual_is_defect.
+Print Assumptions C02_dae_fully_implicit_sweep_form.
+Print Assumptions C02_dae_fully_implicit_fixed_point_residual_zero.
+Print Assumptions C02_dae_integrate_is_dtQU.
+Print Assumptions C02_dae_end_point_form.
+Print Assumptions C02_dae_predict_form.
+Print Assumptions C02_dae_runge_kutta_stage_form.
+Print Assumptions C02_dae_semi_implicit_sweep_form.
+Print Assumptions C02_dae_semi_implicit_sweep_form_lower.
+Print Assumptions C02_dae_semi_implicit_fixed_point_residual_zero.
+Print Assumptions C02_dae_semi_implicit_integrate_form.
 
 (* Non-vacuity: the hypotheses are satisfiable — Qc is a commutative ring, and the diagonal test
    problem of the correspondence harness satisfies the solver contract wherever 1 - a*lam <> 0
@@ -185,3 +296,125 @@ Print Assumptions C02_residual_is_defect.
 Example C02_ring_instance : ring_theory (Q2Qc 0) (Q2Qc 1) Qcplus Qcmult Qcminus Qcopp (@eq Qc).
 Proof. exact Qcrt. Qed.
 Print Assumptions C02_ring_instance.
+
+(* ---- boris_2nd_order (particles, E + v x B force, Boris solver) *)
+Section C02_boris.
+  Context {K : Type} (kO kI : K) (kadd kmul ksub : K -> K -> K) (kopp : K -> K).
+  Hypothesis Rth : ring_theory kO kI kadd kmul ksub kopp (@eq K).
+  Context {X Fld A : Type}.
+  Notation V := (X -> K).
+  Local Infix "+!" := kadd (at level 50, left associativity).
+  Local Infix "*!" := kmul (at level 40, left associativity).
+  Local Infix "-!" := ksub (at level 50, left associativity).
+  Variable M : nat.
+  Variable dt t0 : K.
+  Variable nodes delta : nat -> K.
+  Variable Q QQ Sm ST SQ Sx : nat -> nat -> K.           (* Sm = sweeper.S *)
+  Variable QId : nat -> K.                               (* np.diag(QI) *)
+  Variable bf : K -> Fld -> V -> V -> A -> V.            (* P.build_f *)
+  Variable ef : K -> V -> V -> A -> Fld.                 (* P.eval_f *)
+  Variable bs : V -> K -> Fld -> Fld -> V -> V -> A -> V. (* P.boris_solver *)
+  Variable attr : nat -> A.                              (* (q, m) of the particle object of each node *)
+  Notation tn := (tnode kadd kmul dt t0 nodes).
+  Notation sumf := (sumf kO kadd).
+  Notation Fof := (bforce kadd kmul M dt t0 nodes bf attr).
+  Notation bupdate := (boris_update kO kadd kmul ksub M dt t0 nodes delta Sm ST SQ Sx QId bf ef bs attr).
+
+  (* update_nodes raises (before changing anything) exactly in the modelled case tau[m] present / tau[m-1] absent *)
+  Theorem C02_boris_update_raises : forall p v f tau, tau_ok M tau = false -> bupdate p v f tau = None.
+  Proof. exact (boris_update_raises kO kadd kmul ksub M dt t0 nodes delta Sm ST SQ Sx QId bf ef bs attr). Qed.
+
+  (* node-to-node position form, frame, stored fields and velocities; NO assumption on the problem *)
+  Theorem C02_boris_position_form : forall (p v : nat -> V) (f : nat -> Fld) tau,
+    tau_ok M tau = true ->
+    exists r, bupdate p v f tau = Some r /\
+    let pn := fst (fst r) in let vn := snd (fst r) in let fn := snd r in
+    (forall j, j = 0 \/ M < j -> pn j = p j /\ vn j = v j /\ fn j = f j) /\
+    forall m, 1 <= m <= M ->
+      fn m = ef (tn m) (pn m) (v m) (attr m) /\
+      vn m = bs (bgather_vel kO kadd kmul ksub M dt t0 nodes Sm ST bf attr p v f tau m) (dt *! QId m)
+                (fn (m - 1)) (fn m) (pn (m - 1)) (vn (m - 1)) (attr (m - 1)) /\
+      forall x,
+        pn m x -! pn (m - 1) x -! dt *! dt *! sumf (fun j => Sx m j *! Fof pn vn fn j x) 0 m
+        = dt *! delta m *! v 0 x
+          +! dt *! dt *! sumf (fun j => (SQ m j -! Sx m j) *! Fof p v f j x) 0 (S M) +! tauN kO ksub fst tau m x.
+  Proof. exact (boris_position_form kO kI kadd kmul ksub kopp Rth M dt t0 nodes delta Sm ST SQ Sx QId bf ef bs attr). Qed.
+
+  (* position / velocity node-to-node block form under the Boris solver contract *)
+  Theorem C02_boris_block_form : forall khalf (G : Fld -> V -> A -> V) (p v : nat -> V) (f : nat -> Fld) tau,
+    boris_contract kadd kmul bs khalf G -> build_f_is bf G -> (forall j, attr j = attr 0) ->
+    tau_ok M tau = true ->
+    exists r, bupdate p v f tau = Some r /\
+    let pn := fst (fst r) in let vn := snd (fst r) in let fn := snd r in
+    (forall j, j = 0 \/ M < j -> pn j = p j /\ vn j = v j /\ fn j = f j) /\
+    forall m, 1 <= m <= M ->
+      fn m = ef (tn m) (pn m) (v m) (attr m) /\
+      forall x,
+        pn m x -! pn (m - 1) x -! dt *! dt *! sumf (fun j => Sx m j *! Fof pn vn fn j x) 0 m
+        = dt *! delta m *! v 0 x
+          +! dt *! dt *! sumf (fun j => (SQ m j -! Sx m j) *! Fof p v f j x) 0 (S M) +! tauN kO ksub fst tau m x
+        /\
+        vn m x -! vn (m - 1) x -! dt *! QId m *! khalf *! (Fof pn vn fn (m - 1) x +! Fof pn vn fn m x)
+        = dt *! sumf (fun j => (Sm m j -! ST m j) *! Fof p v f j x) 0 (S M) +! tauN kO ksub snd tau m x.
+  Proof. exact (boris_block_form kO kI kadd kmul ksub kopp Rth M dt t0 nodes delta Sm ST SQ Sx QId bf ef bs attr). Qed.
+
+  (* 0-to-node (matrix) form with the tables of __get_Qd (IE/EE) *)
+  Theorem C02_boris_matrix_form : forall khalf (G : Fld -> V -> A -> V) Qx QT (p v : nat -> V) (f : nat -> Fld) tau,
+    boris_tables_ok kO kmul ksub M nodes delta Q QQ Sm ST SQ Sx QId khalf Qx QT ->
+    boris_contract kadd kmul bs khalf G -> build_f_is bf G -> (forall j, attr j = attr 0) -> tau_full M tau ->
+    exists r, bupdate p v f tau = Some r /\
+    let pn := fst (fst r) in let vn := snd (fst r) in let fn := snd r in
+    let Fn := Fof pn vn fn in let Fo := Fof p v f in
+    (forall j, j = 0 \/ M < j -> pn j = p j /\ vn j = v j /\ fn j = f j) /\
+    forall m, 1 <= m <= M ->
+      fn m = ef (tn m) (pn m) (v m) (attr m) /\
+      forall x,
+        pn m x -! dt *! dt *! sumf (fun j => Qx m j *! Fn j x) 0 m
+        = p 0 x +! dt *! nodes m *! v 0 x
+          +! dt *! dt *! sumf (fun j => (QQ m j -! Qx m j) *! Fo j x) 0 (S M) +! tauV kO fst tau m x
+        /\
+        vn m x -! dt *! sumf (fun j => QT m j *! Fn j x) 0 (S m)
+        = v 0 x +! dt *! sumf (fun j => (Q m j -! QT m j) *! Fo j x) 0 (S M) +! tauV kO snd tau m x.
+  Proof. exact (fun khalf G Qx QT => boris_matrix_form_tables kO kI kadd kmul ksub kopp Rth M dt t0 nodes delta Q QQ Sm ST SQ Sx QId bf ef bs attr khalf G Qx QT). Qed.
+
+  Theorem C02_boris_integrate_form : forall (p v : nat -> V) (f : nat -> Fld) m x,
+    bint_pos kO kadd kmul M dt t0 nodes Q QQ bf attr p v f m x
+    = dt *! dt *! sumf (fun j => QQ m j *! Fof p v f j x) 1 M +! dt *! sumf (fun j => Q m j) 1 M *! v 0 x /\
+    bint_vel kO kadd kmul M dt t0 nodes Q bf attr p v f m x = dt *! sumf (fun j => Q m j *! Fof p v f j x) 1 M.
+  Proof. exact (boris_integrate_form kO kI kadd kmul ksub kopp Rth M dt t0 nodes Q QQ bf attr). Qed.
+
+  Theorem C02_boris_end_point_form : forall (wts qQ : nat -> K) (p v : nat -> V) (f : nat -> Fld) tau,
+    let e := boris_end_point kadd kmul M dt t0 nodes bf attr wts qQ p v f tau in
+    forall x,
+      fst e x = p 0 x +! dt *! sumf wts 1 M *! v 0 x +! dt *! dt *! sumf (fun m => qQ m *! Fof p v f m x) 1 M +! tauV kO fst tau M x /\
+      snd e x = v 0 x +! dt *! sumf (fun m => wts m *! Fof p v f m x) 1 M +! tauV kO snd tau M x.
+  Proof. exact (boris_end_point_form kO kI kadd kmul ksub kopp Rth M dt t0 nodes bf attr). Qed.
+
+  Theorem C02_boris_residual_form : forall (p v : nat -> V) (f : nat -> Fld) tau m x,
+    let r := boris_residual kO kadd kmul ksub M dt t0 nodes Q QQ bf attr p v f tau m in
+    fst r x = p 0 x +! dt *! sumf (fun j => Q m j) 1 M *! v 0 x +! dt *! dt *! sumf (fun j => QQ m j *! Fof p v f j x) 1 M
+              +! tauV kO fst tau m x -! p m x /\
+    snd r x = v 0 x +! dt *! sumf (fun j => Q m j *! Fof p v f j x) 1 M +! tauV kO snd tau m x -! v m x.
+  Proof. exact (boris_residual_form kO kI kadd kmul ksub kopp Rth M dt t0 nodes Q QQ bf attr). Qed.
+End C02_boris.
+
+(* the Boris algorithm of PenningTrap_3D.boris_solver solves the contract equation (any particles, fields, step) *)
+Theorem C02_boris_algorithm_meets_contract : forall (P : Type),
+  boris_contract Qcplus Qcmult (@boris_alg P) half lorentz /\
+  build_f_is (fun (_ : Qc) fl (_ : P * ax -> Qc) ve a => lorentz fl ve a) lorentz.
+Proof. exact (@boris_contract_satisfiable). Qed.
+
+Example C02_boris_tables_satisfiable :
+  boris_tables_ok (Q2Qc 0) Qcmult Qcminus 2 exnodes exdelta exQ exQQ exSm exST exSQ exSx exQId half exQx exQT.
+Proof. exact boris_tables_satisfiable. Qed.
+
+Print Assumptions C02_boris_update_raises.
+Print Assumptions C02_boris_position_form.
+Print Assumptions C02_boris_block_form.
+Print Assumptions C02_boris_matrix_form.
+Print Assumptions C02_boris_integrate_form.
+Print Assumptions C02_boris_end_point_form.
+Print Assumptions C02_boris_residual_form.
+Print Assumptions C02_boris_algorithm_meets_contract.
+Print Assumptions C02_boris_tables_satisfiable.
+
